@@ -14,7 +14,8 @@ Ptr(d, x) == [t |-> "ptr", d |-> d, x |-> x]
 Sl(arr, e) == [t |-> "sl", arr |-> arr, ety |-> "typed", slack |-> 0, e |-> e]
 SlP(e) == [t |-> "sl", arr |-> FALSE, ety |-> "ptr", slack |-> 0, e |-> e]          \* []*int
 SlA(e) == [t |-> "sl", arr |-> FALSE, ety |-> "any", slack |-> 0, e |-> e]          \* []any
-Mp(ks, vs) == [t |-> "mp", ks |-> ks, vs |-> vs]
+Mp(ks, vs) == [t |-> "mp", vp |-> FALSE, ks |-> ks, vs |-> vs]
+MpP(ks, vs) == [t |-> "mp", vp |-> TRUE, ks |-> ks, vs |-> vs]          \* map[string]*int
 St(a, p, c) == [t |-> "st", a |-> a, p |-> p, c |-> c, sty |-> "plain"]
 StE(a, c, y) == [t |-> "st", a |-> a, p |-> <<>>, c |-> c, sty |-> y]
 Mpa(ks, e) == [t |-> "mpa", ks |-> ks, e |-> e]
@@ -31,6 +32,7 @@ Leaves == {I(<<"5">>), S(<<"x">>), B, TrNil,
            SlA(<<Sl(FALSE, SubSeq(Ints, 1, 2)), Mp(<<<<"k">>>>, <<<<"1">>>>), St(<<"1">>, <<"p">>, <<"c">>)>>),
            SlA(<<SlA(<<S(<<"z">>), Ptr(1, I(<<"5">>))>>), I(<<"2">>)>>),
            Mp(<<>>, <<>>), Mp(<<<<"k">>>>, <<<<"1">>>>), Mp(<<<<"k">>, <<"j">>>>, <<<<"1">>, <<"2">>>>),
+           MpP(<<<<"k">>>>, <<<<"1">>>>), MpP(<<<<"k">>, <<"j">>>>, <<<<"1">>, <<"2">>>>),
            Mpa(<<<<"k">>>>, <<TrNil>>), Mpa(<<<<"k">>, <<"j">>>>, <<S(<<"x">>), TrNil>>), Mpa(<<<<"k">>, <<"j">>>>, <<I(<<"5">>), S(<<"y">>)>>),
            St(<<"1">>, <<"p">>, <<"c">>), Ptr(1, St(<<"2">>, <<"r">>, <<"d">>)),
            StE(<<"1">>, <<"c">>, "embp"), StE(<<"1">>, <<"c">>, "embx"), Ptr(1, StE(<<"2">>, <<"d">>, "embp"))}
